@@ -160,14 +160,15 @@ type World struct {
 	faultPlan map[string]string
 
 	pendingInstance map[string]string
-	pendingSince    map[string]int      // reconcile number in which the interface was created
-	cniInFlight     map[string]int      // pod uid -> CNI requests between invoke and return
-	passStartUID    map[string]string   // pod name -> uid, for the pods that existed when the current reconcile began
-	rtSeen          map[string]rtStamps // pod uid -> newest CNI stamps the agent ever wrote to the runtime object
-	delComplete     map[string]bool     // pod uid -> the DEL of every sandbox of the pod returned success
-	addOK           map[string]bool     // pod uid -> an ADD for it succeeded: the agent holds a record of the pod
-	addFailed       map[string]bool     // pod uid -> an ADD for it failed (and was rolled back by the agent)
-	everRecorded    map[string]bool     // interface ids that appeared in a record that reached the API server
+	pendingSince    map[string]int       // reconcile number in which the interface was created
+	cniInFlight     map[string]int       // pod uid -> CNI requests between invoke and return
+	passStartRep    map[string][2]string // pod name -> addresses the pod reported when the current reconcile began
+	passStartUID    map[string]string    // pod name -> uid, for the pods that existed when the current reconcile began
+	rtSeen          map[string]rtStamps  // pod uid -> newest CNI stamps the agent ever wrote to the runtime object
+	delComplete     map[string]bool      // pod uid -> the DEL of every sandbox of the pod returned success
+	addOK           map[string]bool      // pod uid -> an ADD for it succeeded: the agent holds a record of the pod
+	addFailed       map[string]bool      // pod uid -> an ADD for it failed (and was rolled back by the agent)
+	everRecorded    map[string]bool      // interface ids that appeared in a record that reached the API server
 	pending         []chan struct{}
 
 	// truth mirrors maintained from API writes
@@ -280,6 +281,21 @@ func (w *World) podObject(p *podState) *corev1.Pod {
 		pod.Spec.Containers[0].Resources.Limits = corev1.ResourceList{"aliyun/erdma": resource.MustParse("1")}
 	}
 	return pod
+}
+
+// snapshotPassStart notes what a reconcile that begins now can know about the pods.
+func (w *World) snapshotPassStart() {
+	w.passStartUID, w.passStartRep = map[string]string{}, map[string][2]string{}
+	for _, p := range w.pods {
+		if !p.exists {
+			continue
+		}
+		w.passStartUID[p.spec.Name] = p.uid
+		if pod := w.truthPod(p.spec.Name); pod != nil {
+			v4, v6 := reported(pod)
+			w.passStartRep[p.spec.Name] = [2]string{v4, v6}
+		}
+	}
 }
 
 func (w *World) createPod(p *podState) {
@@ -505,12 +521,7 @@ func (w *World) startController() {
 			w.reconciles++
 			before := w.cloud.mutations
 			w.inReconcile = true
-			w.passStartUID = map[string]string{}
-			for _, p := range w.pods {
-				if p.exists {
-					w.passStartUID[p.spec.Name] = p.uid
-				}
-			}
+			w.snapshotPassStart()
 			res, err := w.ctl.Reconcile(context.Background(), reconcile.Request{NamespacedName: k8stypes.NamespacedName{Name: nodeName}})
 			w.inReconcile = false
 			if err != nil {
